@@ -92,9 +92,120 @@ Definition c12_judge (is_client : bool) (rc : reply_class) (bin : bool) (err : b
   | RcOtherFrame => []                                             (* the text leaves it open *)
   end.
 
-(* ---------- C08/C10: what a stream of frames / lines must produce ---------- *)
+(* ---------- C08/C10/C11: what a stream of frames / lines must produce ---------- *)
+(* Reference reading of a binary panel stream, frame by frame, looking only at three byte
+   positions of each frame (first header byte, last header byte, last payload byte) and their
+   arrival times - not a simulation of reads.  A timed byte is (arrival time, value). *)
 Definition limit : Z := 500000.
 Definition inframe : Z := 2000.
 
+Fixpoint tmax (l : list (Z * Z)) (m : Z) : Z :=
+  match l with [] => m | (t, _) :: r => tmax r (Z.max m t) end.
+Definition snds (l : list (Z * Z)) : bytes := rev_append (fold_left (fun acc x => snd x :: acc) l []) [].
+
+Inductive fstep : Type :=
+| FGood (p : bytes) (te : Z) (rest : list (Z * Z))  (* a complete frame, completed at te *)
+| FFault (t k : Z)   (* the connection must be dropped at t; k = 1 stall inside the header,
+                        2 length at or above the limit, 3 stall inside the payload *)
+| FEnd.              (* nothing (more) was sent *)
+
+Definition next_frame (tb : list (Z * Z)) : fstep :=
+  match tb with
+  | [] => FEnd
+  | (t1, _) :: _ =>
+    match split_tr 4 tb [] with
+    | None => FFault (t1 + inframe) 1
+    | Some (h, r) =>
+      let t4 := tmax h t1 in
+      if t1 + inframe <=? t4 then FFault (t1 + inframe) 1
+      else
+        let v := u32le (snds h) in
+        if limit <=? v then FFault t4 2
+        else match split_tr v r [] with
+             | None => FFault (t4 + inframe) 3
+             | Some (p, r') =>
+               let te := tmax p t4 in
+               if t4 + inframe <=? te then FFault (t4 + inframe) 3 else FGood (snds p) te r'
+             end
+    end
+  end.
+
+(* all frames up to the first fault: (payload, completion time) list, then the fault if any *)
+Fixpoint walk_bin (fuel : nat) (tb : list (Z * Z)) : list (bytes * Z) * option (Z * Z) :=
+  match fuel with
+  | O => ([], None)
+  | S f =>
+    match next_frame tb with
+    | FGood p te rest => let (g, e) := walk_bin f rest in ((p, te) :: g, e)
+    | FFault t k => ([], Some (t, k))
+    | FEnd => ([], None)
+    end
+  end.
+
+(* ASCII: complete lines (terminator included) with the arrival time of their LF *)
+Fixpoint walk_lines_aux (tb : list (Z * Z)) (cur : bytes) (tm : Z) : list (bytes * Z) :=
+  match tb with
+  | [] => []
+  | (t, b) :: r =>
+    if b =? 10 then (rev_append (b :: cur) [], Z.max tm t) :: walk_lines_aux r [] (Z.max tm t)
+    else walk_lines_aux r (b :: cur) (Z.max tm t)
+  end.
+Definition walk_lines (tb : list (Z * Z)) : list (bytes * Z) := walk_lines_aux tb [] 0.
+
 (* ASCII white space as trimmed from a line *)
 Definition ws (c : Z) : bool := (c =? 32) || ((9 <=? c) && (c <=? 13)).
+Fixpoint drop_ws (s : bytes) : bytes := match s with [] => [] | c :: r => if ws c then drop_ws r else s end.
+Definition strip (s : bytes) : bytes := rev_append (drop_ws (rev_append (drop_ws s) [])) [].
+
+(* A connection is cut at [cut] (cancellation or loss of the panel, ms after accept).  Margins
+   keep apart what must be delivered, what may be, and what must not be. *)
+Definition margin : Z := 300.
+
+(* expected deliveries: those completed [margin] before the cut must appear, those completed
+   within the margin around it may, later ones must not; given as (must, may) *)
+Fixpoint must_may (l : list (bytes * Z)) (cut : Z) : list bytes * list bytes :=
+  match l with
+  | [] => ([], [])
+  | (x, te) :: r =>
+    if te + margin <=? cut then let (a, b) := must_may r cut in (x :: a, b)
+    else ([], map fst (filter (fun y => snd y <? cut + margin) l))
+  end.
+
+Fixpoint is_prefix (a b : list bytes) : bool :=
+  match a, b with
+  | [], _ => true
+  | x :: a', y :: b' => bytes_eqb x y && is_prefix a' b'
+  | _ :: _, [] => false
+  end.
+
+(* observed deliveries (as oracle values) = must ++ a prefix of may *)
+Fixpoint deliveries_ok (obs must may : list bytes) : bool :=
+  match must with
+  | m :: must' => match obs with o :: obs' => bytes_eqb o m && deliveries_ok obs' must' may | [] => false end
+  | [] => is_prefix obs may
+  end.
+
+(* C10: a fault at tf (well before the cut) demands a non-cancelled disconnect promptly *)
+Definition prompt_lo : Z := 150.
+Definition prompt_hi : Z := 400.
+Definition dropped_promptly (tf : Z) (dis : list (Z * bool)) : bool :=
+  match dis with
+  | [(t, false)] => (tf - prompt_lo <=? t) && (t <=? tf + prompt_hi)
+  | _ => false
+  end.
+
+(* C11: callback discipline over a whole observed trace.
+   cb = Some (cancelled) for a disconnect, None for a connect. *)
+Fixpoint alternate (expect_connect : bool) (cbs : list (option bool)) : bool :=
+  match cbs with
+  | [] => true
+  | None :: r => expect_connect && alternate false r
+  | Some _ :: r => negb expect_connect && alternate true r
+  end.
+(* a cancelled disconnect is the last callback *)
+Fixpoint cancelled_last (cbs : list (option bool)) : bool :=
+  match cbs with
+  | [] => true
+  | Some true :: r => match r with [] => true | _ => false end
+  | _ :: r => cancelled_last r
+  end.
